@@ -35,6 +35,7 @@ def shards(tier, seed):
     for t in ts[:: max(1, len(ts) // k)][:k]:
         out.append(("toy_%d_%d_%d" % t.curve.key(), dict(kind="toy", key=t.curve.key(), ndig=16 if q else 64)))
     out.append(("near_recursion_limit", dict(kind="near_limit")))
+    out.append(("cross_curves", dict(kind="cross", rounds=6 if q else 60)))
     return out
 
 
@@ -148,6 +149,42 @@ def run(ctx, name, kind, **kw):
     rng = ctx.rng
     if kind == "near_limit":
         return sigs.near_limit(ctx, rng, ["NIST224p", "NIST521p", "SECP256k1"], ['recover'])
+    if kind == "cross":
+        # recoveries on RELATED curves one after the other: (a) the same signature and digest first handed to recovery on the other shipped curve
+        # over the same field prime (SECP112r2, whatever it answers), then on the signer's curve SECP112r1; (b) one digest signed on a named
+        # curve and on a user-defined Curve over the SAME equation with another base point, recovered in alternation.  Each recovery is a
+        # function of its own curve, signature and digest
+        import ecdsa as _e
+        from ecdsa import curves as _cu
+        from vf.lib import PointJacobi as _PJ
+        from vf.ref.ecdsa_ref import Domain
+        c1, c2 = lib.BY_NAME["SECP112r1"], lib.BY_NAME["SECP112r2"]
+        d1 = lib.dom_of(c1)
+        for rnd in range(kw["rounds"]):
+            d, k = rng.randrange(1, d1.n), rng.randrange(1, d1.n)
+            dg = bytes(rng.getrandbits(8) for _ in range(d1.nbytes()))
+            e_ = ecdsa_ref.digest_to_e(d1, dg, True)
+            rs_ = ecdsa_ref.sign(d1, d, k, e_)
+            if isinstance(rs_, tuple):
+                for fmt_, dec_ in (("string", util.sigdecode_string), ("der", util.sigdecode_der)):
+                    try:
+                        _e.VerifyingKey.from_public_key_recovery_with_digest(sigs.ref_encode(fmt_, rs_[0], rs_[1], d1.n), dg, c2, sigdecode=dec_)
+                    except Exception:
+                        pass
+                    ctx.count("recovery_on_the_other_curve_over_the_same_prime_first")
+                    judge(ctx, c1, d1, d, k, dg, True, fmt_, "recover.cross", "same_prime|%s" % fmt_)
+        cn = lib.BY_NAME["NIST192p"]
+        dn = lib.dom_of(cn)
+        H = dn.curve.mul(rng.randrange(2, dn.n), dn.G)
+        dom2 = Domain(dn.p, dn.curve.a, dn.curve.b, H[0], H[1], dn.n, dn.h, "NIST192p_altG")
+        custom = _cu.Curve("NIST192p_altG", cn.curve, _PJ(cn.curve, H[0], H[1], 1, dn.n, generator=True), cn.oid)
+        for rnd in range(max(2, kw["rounds"] // 2)):
+            d, k = rng.randrange(1, dn.n), rng.randrange(1, dn.n)
+            dg = bytes(rng.getrandbits(8) for _ in range(dn.nbytes()))
+            order_ = ((cn, dn), (custom, dom2), (cn, dn), (custom, dom2)) if rnd % 2 else ((custom, dom2), (cn, dn), (custom, dom2))
+            for cc, dd in order_:
+                judge(ctx, cc, dd, d, k, dg, True, ("string", "der")[rnd % 2], "recover.cross", "same_equation|%s" % cc.name)
+        return
     if kind == "prod":
         c = lib.BY_NAME[kw["cname"]]
         dom = lib.dom_of(c)
